@@ -48,6 +48,8 @@ Unusual == {
   "export const s = (a = <A>{f()}</A>, b = () => <B>{g()}</B>) => { if (a) return <C>{h()}</C>; else return <D>{k()}</D>; };",
   "export const s = ({ icon = <i/> }) => icon;", "export const s = ([a = <></>]) => a;", "export const s = ({ icon = <svg:use href=\"#i\"/> } = {}) => icon;",
   "export function s({ a = <b/>, ...rest }, [c = <C>{f()}</C>] = []) { return [a, c, rest]; }", "export const s = ({ [<k/>.key]: v }) => v;",
+  "handlers[key(<Icon name=\"close\" />)] = fn;", "counts[(<div/>).type] += 1;", "(<><span/></>).children.length = 0;",
+  "seen[list.map(i => <A>{f(i)}</A>).length] = true;", "({ a: [x = <b/>] } = props); [y[<i/>.k]] = z;",
   "export const s = <C>{function* () {}}</C>;", "export const s = <C>{class {}}</C>;", "export const s = <div>{`a${b}`}</div>;",
   "export const s = <div a='&quot;&amp;' b=\"\\n\">&lt;&#x41;</div>;",
   "export const s = <a href=\"C:\\users\\me\" sep=\"\\\" pattern=\"(a|b)\\1\" q='\\x' />;",
